@@ -1,9 +1,8 @@
 (* Extraction of the preprocess engine (C05, C04): the mirror of the repaired
    comment stripper, the mirror of the code before the repair, and the
-   reference lexer with its executable vocabulary.  ExtrOcamlBasic only. *)
+   reference lexer.  ExtrOcamlBasic only. *)
 Require Extraction.
 Require Import ExtrOcamlBasic.
 Require Import Model.Base Model.Preprocess Model.PreprocessOld Spec.LexSpec.
 Separate Extraction Base.base_roots Base.outcome Preprocess.preprocess Preprocess.error_range
-  PreprocessOld.preprocess_old LexSpec.lex_spec LexSpec.blank_comments
-  LexSpec.plain_code_b LexSpec.no_close_b LexSpec.no_newline_b.
+  PreprocessOld.preprocess_old LexSpec.lex_spec LexSpec.blank_comments.
